@@ -41,6 +41,8 @@ ZnormClauses(e) ==
         (xs[i] < xs[j] => r[i] <= r[j]) /\ (xs[i] = xs[j] => r[i] = r[j]),
     C20_znorm_mean_zero |-> (OkS(e) /\ Len(r) = n) => AbsQ(SumSeq(r)) <= n,
     C20_znorm_sample_standard_deviation_one |-> (OkS(e) /\ Len(r) = n) =>
+        \* (|z| <= (n - 1) / sqrt(n) < 4 for n <= 16: anything larger is wrong outright, and the squares below stay within 32 bits)
+        (\A i \in 1..n : AbsQ(r[i]) <= 5000) /\
         \* r[i] = 1000 z[i] + d[i] with |d[i]| <= 1/2: the sum of squares is off by at most sum |r[i]| + n
         AbsQ(SumSq(r) - (n - 1) * 1000000) <= SumSeq([i \in 1..n |-> AbsQ(r[i])]) + n + 10 ]
 
@@ -84,7 +86,11 @@ RowFilterClauses(e) ==
         /\ \A i \in IdxQ(e.rows) : i <= Len(e.ret) => (Len(e.ret[i]) = Len(e.rows[i])
               /\ \A k \in IdxQ(e.rows[i]) : k # e.args.index => e.ret[i][k] = e.rows[i][k]) ]
 
+\* znormalizeSpeakerData (no zero filtering): the chosen column z-normalised, every row and every other column kept (e.kept)
+SpeakerZClauses(e) == [ C20_filters_keep_rows_and_order |-> OkS(e) /\ e.kept ] @@ ZnormClauses(e)
+
 SeriesFails(e) == CASE e.op = "median" -> FailsOfS(MedianClauses(e))
+                    [] e.op = "speakerz" -> FailsOfS(SpeakerZClauses(e))
                     [] e.op = "znorm" -> FailsOfS(ZnormClauses(e))
                     [] e.op = "rms" -> FailsOfS(RmsClauses(e))
                     [] e.op = "pitch" -> FailsOfS(PitchClauses(e))
